@@ -119,6 +119,10 @@ def _thrower_kind(ctx: Ctx, fi: FuncInfo, call: ast.Call) -> str | None:
         return None
     if full == "bytes.fromhex" or (nm == "fromhex" and isinstance(f, ast.Attribute)):
         return "fromhex"
+    if nm in ("decode", "encode") and isinstance(f, ast.Attribute) and not in_pkg:
+        errs = list(call.args[1:2]) + [k.value for k in call.keywords if k.arg == "errors"]
+        if any(isinstance(e, ast.Constant) and e.value in ("replace", "ignore", "backslashreplace", "surrogateescape", "xmlcharrefreplace", "namereplace") for e in errs):
+            return None  # a lenient codec does not raise
     if nm == "decode" and isinstance(f, ast.Attribute) and not in_pkg and (call.args or call.keywords or isinstance(f.value, (ast.Call, ast.Name, ast.Subscript))):
         if not call.args and not call.keywords and isinstance(f.value, ast.Name):
             return None  # obj.decode(): a btclib decoder object
@@ -167,7 +171,7 @@ def rule_throwers(ctx: Ctx, rep: Report) -> None:
     rule = "C19.throwers"
     seen = set()
     for fi in sorted(ctx.prog.functions.values(), key=lambda f: f.qualname):
-        if fi.module.name.startswith(("btclib.hwi", "btclib.fetch")):
+        if fi.module.name.startswith(("btclib.hwi",)):
             continue
         for call in sorted((n for n in own_nodes(fi.node) if isinstance(n, ast.Call)), key=lambda c: (c.lineno, c.col_offset)):
             k = _thrower_kind(ctx, fi, call)
@@ -982,7 +986,49 @@ def rule_single_pass_(ctx: Ctx, rep: Report) -> None:
     rule_single_pass(ctx, rep, "C19.single_pass", ('btclib.',), 40)
 
 
+def rule_shares_agree_on_length(ctx: Ctx, rep: Report) -> None:
+    """C19.shares_agree_on_length: SLIP39's interpolation walks the share values byte
+    by byte, all at the first one's length: the reader refuses a set whose
+    values differ in length before it interpolates (C13.thresholds'
+    `common_fields`, reported here) -- else two checksum-valid mnemonics of 16
+    and 32 bytes are an IndexError out of `master_secret_from_mnemonics`."""
+    from rules import C13
+    tmp = Report("C13", rep.tier)
+    tmp.quiet = True
+    C13.rule_thresholds(ctx, tmp)
+    n = 0
+    for o in tmp.obs:
+        if o.instance == "common_fields":
+            n += 1
+            rep.ob("C19.shares_agree_on_length", o.instance, o.held, o.site, o.detail if o.held else "the fields every share of a set must agree on lack one (identifier, extendable flag, iteration exponent, group threshold, group count, value length): shares of different lengths reach the interpolation")
+    rep.floor("C19.shares_agree_on_length", 1)
+
+
+def rule_rewind_to_where_it_started(ctx: Ctx, rep: Report) -> None:
+    """C19.rewind_to_where_it_started: `Message.parse` reads from the caller's stream
+    and, when the message is not all there yet, puts the cursor back where it
+    found it -- the position it recorded with `tell()` before reading. Every
+    `seek` in it goes to that recorded position: a relative seek by the size it
+    *meant* to read moves past the start when fewer bytes were there, and the
+    next parse reads the previous message again."""
+    rule = "C19.rewind_to_where_it_started"
+    fi = ctx.func("btclib.p2p.message.Message.parse")
+    marks = {a.targets[0].id for a in own_nodes(fi.node) if isinstance(a, ast.Assign) and isinstance(a.targets[0], ast.Name) and isinstance(a.value, ast.Call) and isinstance(a.value.func, ast.Attribute) and a.value.func.attr == "tell"}
+    seeks = [c for c in own_nodes(fi.node) if isinstance(c, ast.Call) and isinstance(c.func, ast.Attribute) and c.func.attr == "seek"]
+    if not seeks:
+        rep.unknown(rule, "Message.parse", fi.where(), "no seek")
+        return
+    for c in seeks:
+        ok = len(c.args) == 1 and isinstance(c.args[0], ast.Name) and c.args[0].id in marks
+        rep.ob(rule, f"Message.parse:seek@L{c.lineno - fi.node.lineno}", ok, fi.where(c), "back to the recorded position" if ok else
+               f"`{norm(c)}` is not a return to the position recorded with tell(): the cursor ends up somewhere else when fewer bytes were read than expected")
+    rep.floor(rule, 2)
+
+
 RULES = [
+    ("C19.shares_agree_on_length", rule_shares_agree_on_length),
+    ("C19.rewind_to_where_it_started", rule_rewind_to_where_it_started),
+
     ("C19.single_pass", rule_single_pass_),
 
     ("C19.hashable_membership", rule_hashable_membership_),
